@@ -490,6 +490,10 @@ def run_check(spec, tier, seed, replay=None):
         judge = ["skip"] * len(reqs)
     norm = getattr(spec, "normalize", lambda x: x)
     diffs = [i for i in range(len(reqs)) if norm(impl[i]) != norm(model[i])]
+    if getattr(spec, "NO_MODEL_STREAM", False):
+        # the executable model of this component is not written yet: only the spec oracle judges
+        diffs = []
+        notes.append("no model stream for this property yet: correspondence not checked, spec oracle only")
     fails = [i for i in range(len(reqs)) if judge[i].startswith("fail") or impl[i].startswith("crash") or impl[i] == "timeout"
              or impl[i].startswith("uncaught:")]
     if hasattr(spec, "extra_fail"):
